@@ -39,7 +39,8 @@ Definition entries : list (string * (sexp -> option sexp)) := [
   ("C01.universe", Universe.run_universe);
   ("C06.universe", Universe.run_universe);
   ("C06.lookups", Universe.run_lookups);
-  ("C20.preds", Universe.run_preds)
+  ("C20.preds", Universe.run_preds);
+  ("C11.universe", Universe.run_universe)
 ]%string.
 
 Fixpoint find_entry (name : str) (l : list (string * (sexp -> option sexp))) : option (sexp -> option sexp) :=
